@@ -274,7 +274,7 @@ def visible_digest(opt, params):
     return common.h64(parts)
 
 
-def relerr(a, b):
+def relerr(a, b, floor=0.0):
     a = np.asarray(a, dtype=np.float64)
     b = np.asarray(b, dtype=np.float64)
     if a.shape != b.shape:
@@ -284,7 +284,7 @@ def relerr(a, b):
             return float("inf"), 1.0
     if not (np.all(np.isfinite(a)) and np.all(np.isfinite(b))):
         return (0.0, 1.0) if np.array_equal(a, b, equal_nan=True) else (float("inf"), 1.0)
-    scale = max(float(np.max(np.abs(b), initial=0.0)), float(np.max(np.abs(a), initial=0.0)), 1e-30)
+    scale = max(float(np.max(np.abs(b), initial=0.0)), float(np.max(np.abs(a), initial=0.0)), floor, 1e-30)
     return float(np.max(np.abs(a - b), initial=0.0)) / scale, scale
 
 
@@ -299,9 +299,9 @@ def compare_to_ref(opt, params, ref, cfg, tolscale=1.0, skip_bases=True):
     # proportional to the condition number of the regularised factor (C10): scale by kappa/16 beyond 16
     tol_p = min(TOL_CAP, tol_f * max(1.0, ref.kappa / 16.0))
 
-    def chk(name, a, b, tol):
+    def chk(name, a, b, tol, floor=0.0):
         nonlocal worst
-        e, _ = relerr(a, b)
+        e, _ = relerr(a, b, floor)
         if e / tol > worst:
             worst = e / tol
             WORST_NAME[0] = f"{name} err={e:.2e} tol={tol:.2e} kappa={ref.kappa:.1f}"
@@ -309,7 +309,7 @@ def compare_to_ref(opt, params, ref, cfg, tolscale=1.0, skip_bases=True):
             msgs.append(f"{name}: rel err {e:.3e} > tol {tol:.1e} (impl {np.asarray(a).reshape(-1)[:4].tolist()} ref {np.asarray(b).reshape(-1)[:4].tolist()})")
 
     for i, p in enumerate(params):
-        chk(f"param[{i}]", to_np(p.data), ref.params[i], tol_p)
+        chk(f"param[{i}]", to_np(p.data), ref.params[i], tol_p, ref.pscale.get(i, 0.0))
     for gi, grp in enumerate(ref.groups):
         first = params[grp.pidxs[0]]
         t_impl = int(opt.state[first]["step"].item())
@@ -332,7 +332,7 @@ def compare_to_ref(opt, params, ref, cfg, tolscale=1.0, skip_bases=True):
                 if (val is None) != (key not in st):
                     msgs.append(f"{nm}.{key}: presence differs (impl {'has' if key in st else 'lacks'})")
                 elif val is not None:
-                    chk(f"{nm}.{key}", st[key], val, tol_p if key == "mom" else tol_f)
+                    chk(f"{nm}.{key}", st[key], val, tol_p if key == "mom" else tol_f, b.scale.get(key, 0.0))
     return msgs, worst
 
 
